@@ -119,7 +119,8 @@ def gen(stream, rng, i, cfg):
             ops.append(['eval', s, f, clock, bool(rng.random() < 0.5)])
     return {'slots': slots, 'ops': ops, 'rand': rng.choice([0.0, 0.25, 0.5, 0.75, 0.999999]),
             'tick_us': rng.choice([None, None, 1, 1000000, 86400000000]),
-            'ref_phase': rng.choice(['before', 'after', 'before_reversed', 'after_reversed'])}
+            'ref_phase': rng.choice(['before', 'after', 'before_reversed', 'after_reversed']),
+            'ref_mode': 'cleanroom' if rng.random() < 0.35 else 'inprocess'}
 
 
 def _jump(rng, cur):
@@ -226,12 +227,27 @@ def _references(sc, stats, clock, reverse=False):
         elif kind == 'debug':
             specs[op[1]]['debug'] = not specs[op[1]]['debug']
     refs = {}
+    if sc.get('ref_mode') == 'cleanroom':
+        # every reference in its own process forked from a pristine zygote: nothing evaluated before it
+        from hxsim import cleanroom
+        for k, spec, f, iso, flip in todo:
+            refs[k] = (cleanroom.call('checks.c02', 'cleanroom_eval', spec, f, iso, sc.get('tick_us'), sc['rand']), flip)
+            stats['ref_evals_cleanroom'] += 1
+        stats['fault:reference_in_pristine_process'] += 1
+        return refs
     for k, spec, f, iso, flip in (reversed(todo) if reverse else todo):
         w = World([spec])
         _set_env(sc, iso)
         refs[k] = (_outcome(w, clock, 0, f, scen.host_elements(spec)), flip)
         stats['ref_evals'] += 1
     return refs
+
+
+def cleanroom_eval(spec, f, iso, tick_us, rand):
+    """Runs in a process that has never evaluated anything (see hxsim/cleanroom.py)."""
+    w = World([spec])
+    _set_env({'tick_us': tick_us, 'rand': rand}, iso)
+    return _outcome(w, StepClock(), 0, f, scen.host_elements(spec))
 
 
 def execute(sc, stats):
@@ -309,6 +325,7 @@ def execute(sc, stats):
             if first_iso is not None and iso != first_iso:
                 stats['fault:clock_jump_forward' if iso > first_iso else 'fault:clock_jump_back'] += 1
             first_iso = iso
+            stats['probe:clock[%s]' % iso[:10]] += 1
     for kname, n in world.fired.items():
         stats['fault:' + kname] += n
     if sc.get('tick_us') is not None and seams.CLOCK.reads:
@@ -355,6 +372,11 @@ CENSUS_CLASSES = [
     ('interrupted_abort', 'SUM({1,2,3},v_0)+LEN("abc")*2', ('abort', 140)), ('interrupted_in_error', 'SUM(1,FX())+1', ('timeout', 200)),
     ('distinct_formulas', None, None), ('distinct_failing_formulas', None, None), ('debug_error', '1/0+zz_top', 'debug'),
     ('nested_other', 'FN()+1', None),
+    # failing evaluations AFTER an evaluation that was cut short (the cut itself is the prelude, not repeated)
+    ('errors_after_callback_abort', '1/0+zz_top', 'prelude:abort'),
+    ('errors_after_interrupt_sweep_abort', '#REF!', 'prelude:sweep_abort'),
+    ('errors_after_interrupt_sweep_timeout', 'SUM(#N/A,1)', 'prelude:sweep_timeout'),
+    ('errors_after_failed_nested', '1/0+zz_top', 'prelude:nested_fail'),
 ]
 
 
@@ -380,6 +402,41 @@ def _census():
     return c
 
 
+def _prelude(world, clock, kind, stats):
+    """Evaluations cut short before the census starts: by a callback raising a BaseException, or by an
+    asynchronous interrupt at EVERY step of a failing evaluation in turn."""
+    if kind == 'abort':
+        for f in ('SUM(1,ABORT())', 'ABORT()+1/0', '1/0+ABORT()'):
+            try:
+                world.evaluate(0, f)
+            except SimAbort:
+                pass
+    elif kind == 'nested_fail':
+        try:
+            world.evaluate(0, 'FN()+ABORT()')
+        except SimAbort:
+            pass
+    else:
+        for f in ('1/0+zz_top', 'SUM(#N/A,1)', '1+', 'FR()'):
+            k = 1
+            while k < 5000:
+                exc = SimAbort('a') if kind == 'sweep_abort' else SimTimeout('t')
+                clock.arm(budget=200000, interrupt=(k, exc))
+                try:
+                    world.evaluate(0, f)
+                except (SimAbort, SimTimeout):
+                    pass
+                except Exception:
+                    pass
+                finally:
+                    fired = clock.fired is not None
+                    clock.disarm()
+                if not fired:
+                    break
+                stats['fault:census_prelude_interrupt'] += 1
+                k += 1
+
+
 def census_task(arg):
     """Runs in one fresh worker.  For each outcome class: warm-up, then N and 2N further repetitions;
     the number of live gc-tracked objects (and of frames/tracebacks) must not grow with N."""
@@ -391,16 +448,18 @@ def census_task(arg):
     seams.CLOCK.tick = None
     seams.RANDOM.c = 0.25
     for name, formula, extra in CENSUS_CLASSES:
-        world = World([_census_slot(extra if isinstance(extra, str) else None), _census_slot(None)])
+        world = World([_census_slot(extra if isinstance(extra, str) and not extra.startswith('prelude') else None), _census_slot(None)])
         clock = StepClock()
         counter = [0]
+        if isinstance(extra, str) and extra.startswith('prelude:'):
+            _prelude(world, clock, extra[8:], stats)
 
         def rep(n):
             for _ in range(n):
                 counter[0] += 1
                 f = formula
                 if name == 'distinct_formulas':
-                    f = '%d+LEN("s%d")' % (counter[0] + 1000, counter[0])
+                    f = '%d+LEN("s%d")+XF%d' % (counter[0] + 1000, counter[0], counter[0] % 1048576 + 1)
                 elif name == 'distinct_failing_formulas':
                     f = '%d/0+u_%d_x' % (counter[0] + 1000, counter[0])
                 intr = None
@@ -416,7 +475,9 @@ def census_task(arg):
                 finally:
                     if intr is not None:
                         clock.disarm()
-        rep(WARM)
+        # bounded caches are fine: give them time to fill before measuring growth (a cache of up to ~10 k entries
+        # keyed on formula text, labels or operands saturates during this warm-up)
+        rep(12000 if name.startswith('distinct') else WARM)
         c0 = _census()
         b0 = sys.getallocatedblocks()
         rep(N)
@@ -437,7 +498,25 @@ def census_task(arg):
         if isinstance(extra, tuple) and clock.fired is None:
             stats['census_interrupt_not_fired'] += 1
         bad = None
-        if d2 > TOL or ft2 > TOL:
+        if name.startswith('distinct'):
+            # distinct inputs may legitimately fill a bounded cache (and a cache that is emptied when full gives
+            # a sawtooth): only growth in EVERY one of four further windows of 2000 evaluations counts
+            W = 2000
+            wins = []
+            prev_b, prev_o = b2, sum(c2.values())
+            for _ in range(4):
+                rep(W)
+                cc = _census()
+                bb = sys.getallocatedblocks()
+                wins.append((bb - prev_b, sum(cc.values()) - prev_o))
+                prev_b, prev_o = bb, sum(cc.values())
+            report[name]['windows_of_2000'] = wins
+            stats['evals'] += 4 * W
+            if all(w[1] > TOL for w in wins):
+                bad = 'gc-tracked objects grow in every window of %d distinct evaluations: %s' % (W, [w[1] for w in wins])
+            elif all(w[0] > W // 4 for w in wins):
+                bad = 'allocated blocks grow in every window of %d distinct evaluations: %s' % (W, [w[0] for w in wins])
+        elif d2 > TOL or ft2 > TOL:
             bad = 'gc-tracked objects grow by %d per %d evaluations (frames/tracebacks %d): %s' % (d2, 2 * N, ft2, grow[:6])
         elif (b2 - b1) > arg['block_tol'] and (b1 - b0) > arg['block_tol'] // 2:
             bad = 'allocated blocks grow by %d per %d evaluations (then %d per %d)' % (b1 - b0, N, b2 - b1, 2 * N)
@@ -524,7 +603,7 @@ def describe():
                 'non-trivial = history of >= 2 operations in which at least one judged evaluation produced a value',
         'fault_kinds': ['interrupt_timeout', 'interrupt_abort', 'cb_abort', 'cb_raise', 'listener_raise',
                         'syntaxerror_from_callback', 'rebind_variable', 'rebind_function', 'rebind_listener', 'listener_off',
-                        'debug_toggle', 'parser_built_mid_history', 'clock_jump_forward', 'clock_jump_back', 'clock_tick'],
+                        'debug_toggle', 'parser_built_mid_history', 'reference_in_pristine_process', 'clock_jump_forward', 'clock_jump_back', 'clock_tick'],
         'real_vs_stub': {'hotxlfp (all of it)': 'real', 'ply lex/yacc, dateutil': 'real', 'host callbacks': 'scripted',
                          'wall clock': 'stub (SimClock; jumps between operations, optional tick per read)',
                          'random source': 'stub (per-scenario constant)', 'stderr': 'stub (sink)',
